@@ -262,7 +262,8 @@ check("C05",
       "TLC checks positive-scaling invariance, non-negativity of the quadratic form and betweenness of the linear criterion for all "
       "contribution vectors of <=3 candidates. For fourteen criterion families (EBV, GEBV, weighted and generalised weighted GEBV, "
       "random, EMBV, OHV, UC, family EBV, optimal contribution, mean genomic relationship, mean expected heterozygosity, L1 and L2 "
-      "allele-frequency distance) plus the population allele-frequency distance, the latent vector is computed by the real subset, "
+      "allele-frequency distance) plus the population allele-frequency distance, allele unavailability and their multi-objective "
+      "combination (subset encoding only; selections of up to 103 candidates), the latent vector is computed by the real subset, "
       "integer, binary and real problem classes for the same contribution vector (two listings of a subset, two scalings of a real "
       "vector, up to 7 candidates, 1-2 traits) and every value is validated by TLC against the criterion's definition in exact "
       "rationals (norms as squares through the Gram matrix), so encoding equivalence, order and scale invariance follow. Assembled "
@@ -270,8 +271,7 @@ check("C05",
       "validated too, as is the data held by problems built through from_bvmat, from_gmat_gpmod, from_bvmat_gmat and from_gmat "
       "(population data in the population's unsorted taxon order).",
       "Integer data; kinship factors are integer upper-triangular matrices whose Gram matrix is given to TLC; OPV / genotype builder "
-      "(subset-only, max-based) are covered under C18; multi-objective genomic and allele-unavailability problems are not covered "
-      "yet; factory checks compare arrays numerically (1e-9 / 1e-5 for Cholesky factors).",
+      "(subset-only, max-based) are covered under C18; factory checks compare arrays numerically (1e-9 / 1e-5 for Cholesky factors).",
       "TLA+ spec (SelObjective.tla) model-checked by TLC + TLC validation of recorded latent/objective values of ~56 real problem classes",
       "DESIGN.md C05")
 
